@@ -16,8 +16,8 @@ types below (through pair/tuple/vector/optional) and it has no custom comparator
 utils::StableCompare. Every other key (raw pointers, NodePort with its default <=>, NodePtr, Conjunction, coroutine
 handles, variants of slice descriptors, unknown classes) makes the container *address-ordered*.
 
-A site's identity is (file, enclosing function, kind, container expression); its `hash` is the normalised text of the loop /
-statement. Missing, new or changed (hash) sites break the tie. Line numbers are informational only.
+A site's identity is (file, enclosing function, kind, container expression); its `hash` is the normalised text of the whole
+enclosing function (for an ordering operator: of the operator's definition). Missing, new or changed (hash) sites break the tie. Line numbers are informational only.
 
 Limits (stated in the evidence): variables declared `auto`, containers reached through `it->second` / function results of
 unknown type are recognised only by *name* (a name declared anywhere as an address-ordered container is treated as one
@@ -237,6 +237,20 @@ def statement_text(text, pos):
     return text[ls:e]
 
 
+def match_brace(text, i):
+    """text[i] == '{' -> index after the matching '}'"""
+    d, j = 0, i
+    while j < len(text):
+        if text[j] == "{":
+            d += 1
+        elif text[j] == "}":
+            d -= 1
+            if d == 0:
+                return j + 1
+        j += 1
+    return len(text)
+
+
 def norm_hash(s):
     return hashlib.sha256(" ".join(s.split()).encode()).hexdigest()[:12]
 
@@ -314,8 +328,19 @@ def scan():
     sites = []
 
     def add(f, text, pos, kind, container, why):
-        fn, _ = enclosing_function(text, pos)
-        st = statement_text(text, pos)
+        fn, body_start = enclosing_function(text, pos)
+        if kind == "order-op":
+            # the operator's own definition: up to the matching brace if a body follows, else the declaration
+            semi, brace = text.find(";", pos), text.find("{", pos)
+            if brace >= 0 and (semi < 0 or brace < semi):
+                st = text[text.rfind("\n", 0, pos) + 1:match_brace(text, brace)]
+            else:
+                st = statement_text(text, pos)
+        elif fn not in ("<file scope>",) and not fn.endswith("{}"):
+            # the whole enclosing function: a reason such as "sorted on the next line" depends on the surrounding code
+            st = text[body_start:match_brace(text, body_start)]
+        else:
+            st = statement_text(text, pos)
         sites.append({"file": os.path.relpath(f, SRC), "function": fn, "kind": kind, "container": " ".join(container.split()),
                       "line": text.count("\n", 0, pos) + 1, "hash": norm_hash(st), "why_listed": why})
 
@@ -433,6 +458,7 @@ def run():
         cats[e.get("category", "?")] = cats.get(e.get("category", "?"), 0) + 1
     info.update({"sites_found": len(found), "sites_reviewed": len(reviewed.get("sites", [])), "categories": cats,
                  "order_sensitive": [site_key(e) for e in reviewed.get("sites", []) if e.get("category") == "ORDER-SENSITIVE"],
+                 "order_sensitive_signatures": sorted({s for e in reviewed.get("sites", []) if e.get("category") == "ORDER-SENSITIVE" for s in e.get("signatures", [])}),
                  "problems": problems})
     if problems:
         return False, "audit_unordered: %d problem(s): %s" % (len(problems), " || ".join(problems[:6])), info
